@@ -60,6 +60,8 @@ def gen_case(rng, k):
     if k % 3 == 0:
         peaks[0] = (-2 * c, int(rng.integers(0, shape[1])))          # entirely outside
     fk = ("poisson", "gauss", "const", "zero", "hot", "negative", "disks", "huge")[k % 8]
+    if k % 11 == 5:
+        fk = ("int16_span", "int8_span")[(k // 11) % 2]
     return {"seed": int(rng.integers(1 << 30)), "pattern": pat, "shape": shape, "frame_kind": fk,
             "peaks": peaks.tolist(), "b": int(rng.integers(1, n + 3)),
             "upsample": [False, True, 2, 3, 7, 20, 50][k % 7], "backend": "slicing" if k % 5 == 0 else "pixel"}
@@ -72,6 +74,14 @@ def make_frame(rng, shape, kind):
         return (-rng.poisson(20, shape)).astype(np.float32) - 3
     if kind == "huge":
         return (rng.uniform(-1e6, 1e6, shape)).astype(np.float32)
+    if kind in ("int16_span", "int8_span"):
+        # signed detector data (dark-subtracted) whose span max - min exceeds the positive range of the dtype
+        dt = np.int16 if kind == "int16_span" else np.int8
+        info = np.iinfo(dt)
+        f = rng.integers(info.min // 16, info.max // 16, shape).astype(dt)
+        f.flat[int(rng.integers(f.size))] = info.max - int(rng.integers(0, 5))
+        f.flat[int(rng.integers(f.size))] = info.min + int(rng.integers(0, 5))
+        return f
     return impl.noise_frame(rng, shape, kind)
 
 
